@@ -261,6 +261,22 @@ class Diverged(Exception):
     pass
 
 
+INJECT_KINDS = ('take_physical_irq_exception', 'take_physical_fiq_exception', 'take_reset')
+
+
+def apply_op(cpu, op):
+    """one operation of an interleaving on one instance: a step, or an interrupt / reset delivered by the embedder; returns (state digest, escaping exception)"""
+    if op == 'step':
+        e = target.step_budget(cpu)
+    else:
+        try:
+            (getattr(cpu.registers, op, None) or getattr(cpu, op))()
+            e = None
+        except Exception as ex:      # noqa: BLE001
+            e = ex
+    return (digest(target.snapshot(cpu)), type(e).__name__ if e is not None else None)
+
+
 CUR = {}
 
 
@@ -285,51 +301,68 @@ def make_machine(acc, same_config):
             case = program_case(random.Random(pseed), cfgname)
             self.hist.append(('create', cfgname, pseed))
             cpu = e1.build(case)          # constructing an instance loads its configuration into the module-level singleton
-            self.inst.append({'cpu': cpu, 'cfgname': cfgname, 'case': case, 'obs': [], 'inforce': []})
+            self.inst.append({'cpu': cpu, 'cfgname': cfgname, 'case': case, 'obs': [], 'inforce': [], 'ops': []})
             self.created_last = cfgname
 
         @precondition(lambda self: hasattr(self, 'inst') and len(self.inst) > 0)
         @rule(i=st.integers(0, 2))
         def step(self, i):
+            self.operate(i, 'step')
+
+        @precondition(lambda self: hasattr(self, 'inst') and len(self.inst) > 0)
+        @rule(i=st.integers(0, 2), kind=st.sampled_from(INJECT_KINDS))
+        def inject(self, i, kind):
+            # what an embedder does between steps: an interrupt or a reset delivered to one of the instances
+            self.operate(i, kind)
+
+        def operate(self, i, op):
             it = self.inst[i % len(self.inst)]
             idx = self.inst.index(it)
-            self.hist.append(('step', idx))
+            self.hist.append(('step', idx) if op == 'step' else ('inject', idx, op))
             if self.last is not None and self.last != idx:
                 self.switches += 1
             self.last = idx
-            # observed: step the instance as a user would, i.e. with the module-level configuration left by the last construction
-            target.load_config(gen.CONFIGS[self.created_last])
-            e = target.step_budget(it['cpu'])
-            it['obs'].append((digest(target.snapshot(it['cpu'])), type(e).__name__ if e is not None else None))
+            # observed: operate the instance as a user would - the harness does not touch the module-level configuration between operations (the
+            # expectations are computed when the history is over)
+            it['obs'].append(apply_op(it['cpu'], op))
+            it['ops'].append(op)
             it['inforce'].append(self.created_last)
-            # expected: a fresh twin of this instance stepped alone under its own configuration (recomputed from scratch every time,
-            # so no twin is ever stepped between two steps of the instances under test)
-            target.load_config(gen.CONFIGS[it['cfgname']])
-            solo = e1.build(it['case'])
-            exp = step_trace(solo, len(it['obs']))
-            target.load_config(gen.CONFIGS[self.created_last])
-            if exp != it['obs']:
+
+        def check(self):
+            """after the history: every instance must have produced the trace its solo twin produces under its own configuration"""
+            for idx, it in enumerate(self.inst):
+                if not it['ops']:
+                    continue
+                target.load_config(gen.CONFIGS[it['cfgname']])
+                solo = e1.build(it['case'])
+                exp = [apply_op(solo, op) for op in it['ops']]
+                if exp == it['obs']:
+                    continue
                 attributed = False
                 if any(c != it['cfgname'] for c in it['inforce']) and 'config-singleton' in known.listed('C20'):
-                    # quirk model of the known finding: the twin alone, but every step under the configuration that was in force
+                    # quirk model of the known finding: the twin alone, but every operation under the configuration that was in force (the one of the
+                    # most recently constructed instance)
+                    target.load_config(gen.CONFIGS[it['cfgname']])
                     twin = e1.build(it['case'])
                     pred = []
-                    for c in it['inforce']:
+                    for op, c in zip(it['ops'], it['inforce']):
                         target.load_config(gen.CONFIGS[c])
-                        pred += step_trace(twin, 1)
-                    target.load_config(gen.CONFIGS[self.created_last])
+                        pred.append(apply_op(twin, op))
                     attributed = pred == it['obs']
                 if attributed:
                     acc.known_hit('config-singleton')
-                    return
+                    continue
                 k = next(x for x in range(len(exp)) if exp[x] != it['obs'][x])
-                raise Diverged('instance %d (%s) diverged from its solo trace at its step %d (configuration in force: %s)' % (
-                    idx, it['cfgname'], k + 1, it['inforce'][k]))
+                raise Diverged('instance %d (%s) diverged from its solo trace at its operation %d (%s; configuration in force: %s)' % (
+                    idx, it['cfgname'], k + 1, it['ops'][k], it['inforce'][k]))
 
         def teardown(self):
             if not hasattr(self, 'hist'):
                 return
-            target.load_config(None)
+            try:
+                self.check()
+            finally:
+                target.load_config(None)
             cfgs = {it['cfgname'] for it in self.inst}
             acc.case(self.switches >= 2, ('iso', tuple(map(str, self.hist))), cls='isolation:' + ('same-config' if len(cfgs) <= 1 else 'mixed-config'),
                      sample={'history': [list(map(str, h)) for h in self.hist[:16]], 'switches': self.switches, 'configs': sorted(cfgs)})
@@ -365,6 +398,9 @@ def replay_history(hist, same_config):
                 m.create(CFGS.index(h[1]), h[2])
             elif h[0] == 'step':
                 m.step(h[1])
+            elif h[0] == 'inject':
+                m.inject(h[1], h[2])
+        m.check()
     except Diverged as d:
         return str(d)
     finally:
